@@ -124,6 +124,7 @@ def run(run: common.Run):
                     r0, c0 = rng.randrange(1, src.h - ph_), rng.randrange(1, src.w - pw_)
                     s[:, r0:r0 + ph_, c0:c0 + pw_] = rng.randint(30, 190)
                     sv[r0:r0 + ph_, c0:c0 + pw_] = True
+                    case['flat_patch'] = (r0, c0, ph_, pw_)
                     run.hist['gain-offset: source with a flat patch wider than the kernel (in-painted parameters)'] += 1
             if island:
                 # an island: one valid source pixel more than a kernel away from every other valid pixel (single block).  Its kernels
@@ -208,11 +209,21 @@ def run(run: common.Run):
             exp = a * s32[b] + bb
             rng_ = float(np.nanmax(exp[sv]) - np.nanmin(exp[sv])) if sv.any() else 1.0
             got = res.corr[b].astype('float64')
+            # finding D25: a block that lies wholly inside a flat source patch holds no well-modelled kernel to in-paint from
+            def d25(bad):
+                fp = case.get('flat_patch')
+                if not (fp and case['halvings'] and bad.any()):
+                    return {}
+                inside = np.zeros(sv.shape, bool)
+                inside[fp[0]:fp[0] + fp[2], fp[1]:fp[1] + fp[3]] = True
+                return dict(flat_patch=True, multi_block=True) if not (bad & ~inside).any() else {}
+            if res.corr_mask is not None and res.profile.get('nodata') is None:
+                got = np.where(res.corr_masks[b], got, np.nan)      # (internal-mask outputs: masked pixels hold no value)
             inval = sv & ~np.isfinite(got)
             if inval.any():
                 rr, cc = np.argwhere(inval)[0]
                 run.fail(case, f'band {b + 1}: valid source pixel ({rr},{cc}) has no corrected value '
-                         f'({int(inval.sum())} such pixels)', signature=dict(kind='valid-pixel-lost'))
+                         f'({int(inval.sum())} such pixels)', signature=dict(kind='valid-pixel-lost', **d25(inval)))
                 break
             err = np.abs(got - exp)[sv]
             tol = 2e-4 * max(rng_, 1.0) + 2e-4 * np.abs(exp[sv]).max() * (1 if case['model'] == 'gain-offset' else 0.2)
@@ -220,7 +231,7 @@ def run(run: common.Run):
                 k = np.argwhere((np.abs(got - exp) > tol) & sv)[0]
                 run.fail(case, f'band {b + 1}: corrected({k[0]},{k[1]}) = {got[k[0], k[1]]:.4f} but a*src+b = '
                          f'{exp[k[0], k[1]]:.4f} (a={a}, b={bb}; max err {err.max():.3g}, tol {tol:.3g})',
-                         signature=dict(kind='line-not-recovered'))
+                         signature=dict(kind='line-not-recovered', **d25((np.abs(got - exp) > tol) & sv)))
                 break
             worst = max(worst, float(err.max()) / max(rng_, 1.0) if err.size else 0.0)
         else:
